@@ -63,6 +63,7 @@ class Contract:
     defs: dict[str, str] = field(default_factory=dict)       # 'name(a,b)': 'expr'
     at_call: dict[str, dict[str, Any]] = field(default_factory=dict)  # callee key -> {label: clause} checked at each call
     free: dict[str, str] = field(default_factory=dict)       # closure/global variables treated as symbolic inputs
+    setup_callee: Callable | None = None   # hook(ex, env, bound) when this contract is used at a call site
     setup: Callable | None = None      # python hook(ex) run after parameter binding (build records etc.)
     canaries: list[Any] = field(default_factory=list)        # AST mutations that must be refuted
     replay: Callable | None = None     # (model_decoder) -> concrete replay; see vfcore.replay
@@ -70,6 +71,7 @@ class Contract:
     note: str = ""
     self_cls: str | None = None        # for methods: class of `self`
     max_paths: int = 4000
+    result_alias: list[str] = field(default_factory=list)   # locals that denote the result (for callers)
     shards: int = 1                    # split the discharge of this unit over that many pool processes
 
     def clause(self, c):
